@@ -712,4 +712,29 @@ theorem C05_run_ok (cfg : Config) (hacc : Accepted cfg = true) (evs : List Ev) :
   | nil => intro d hd; exact hd
   | cons e es ih => intro d hd; rw [run_cons]; exact ih _ (C05_step_ok cfg hacc d e hd)
 
+/-! ### non-vacuity: an accepted configuration with an axis, and an axis event in range -/
+
+def exCfg : Config :=
+  { maps := [{ name := "m", midi := [(("", 30), ⟨60, 0⟩)],
+               analog := [(("", 0), { kind := .cc, cc := 1, ccNeg := 2, note := 0, noteNeg := 0, chOff := 0,
+                                      chOffNeg := 0, act := .none, actNeg := .none, flip := false,
+                                      bidir := false, dzCenter := false })],
+               dz := [], defDz := [("", 1/4)] }],
+    actions := [], exitSeq := [], mode := .off, defOct := 0, defSemi := 0, defCh := 1, defMap := 0,
+    vel := 64, axes := [(("js", 0), (-128, 127))] }
+
+theorem exCfg_accepted : Accepted exCfg = true := by decide
+
+theorem exCfg_inRange :
+    evInRange exCfg (StObs.ofDev (Dev.init exCfg)) (.abs "" "js" 0 100) = true := by
+  have : axisOK (-128) 127 false (1/4) 100 = true := axisOK_iff.mpr (by norm_num)
+  simpa [evInRange, StObs.ofDev, Dev.init, exCfg, alookup, Mapping.deadzone] using this
+
+example : ∀ os ∈ ((Dev.init exCfg).run [.abs "" "js" 0 100]).2, ∀ o ∈ os, wellFormed o = true :=
+  C05_run exCfg exCfg_accepted _ (by
+    intro i h
+    have : i = 0 := by simpa using h
+    subst this
+    exact exCfg_inRange)
+
 end Hidi.Props.C05
